@@ -29,6 +29,12 @@ def run(ctx):
     fd = gensrv.build_matrix(ctx, "execfd", ["base"])
     built["execfd:base"] = fd["base"]
     cfgs = list(cfgs) + ["execfd:base"]
+    # binding mode 2: scalar / enum fields are plain struct fields filled by the parent's resolver
+    try:
+        built["mixed:base"] = gensrv.build_server(ctx, "exec", "base", mixed=True)
+    except RuntimeError as e:
+        built["mixed:base"] = e
+    cfgs = list(cfgs) + ["mixed:base"]
     dist = Counter()
     nontriv = set()
     total = 0
